@@ -902,7 +902,7 @@ func RaceBody() int {
 	close(start)
 	wg.Wait()
 	// second phase: every policy of the sequential-history family, 4 goroutines each walking all of its inputs
-	// (rotated starting points) six times over, results compared with the sequential ones
+	// (rotated starting points) three times over, results compared with the sequential ones
 	ins := c13SeqInputs()
 	calls2 := 0
 	for _, s := range c13SeqSpecs() {
@@ -917,7 +917,7 @@ func RaceBody() int {
 			wg2.Add(1)
 			go func(g int) {
 				defer wg2.Done()
-				for round := 0; round < 6; round++ {
+				for round := 0; round < 3; round++ {
 					for k := range ins {
 						i := (k + g*len(ins)/4 + round) % len(ins)
 						if out := p.Sanitize(ins[i]); out != want[i] {
@@ -933,7 +933,7 @@ func RaceBody() int {
 			}(g)
 		}
 		wg2.Wait()
-		calls2 += 4 * 6 * len(ins)
+		calls2 += 4 * 3 * len(ins)
 	}
 	fmt.Printf("racebody: 4 goroutines x 2000 iterations on the shared policy, then %d concurrent calls over %d policies, mismatches=%d\n", calls2, len(c13SeqSpecs()), mism)
 	return 0
